@@ -440,14 +440,21 @@ func stressStore(r *rng, thorough bool) stressResult {
 				wg.Add(1)
 				go func(w int) {
 					defer wg.Done()
+					var mine [7]int // what this writer last set under each of its keys
 					for n := 1; !stop.Load(); n++ {
-						key := "private/" + strconv.Itoa(w) + "/" + strconv.Itoa(n%7)
-						st.Set(key, n)
+						st.Set("private/"+strconv.Itoa(w)+"/"+strconv.Itoa(n%7), n)
+						mine[n%7] = n
 						last[w] = n
-						if got, ok := st.Get(key); !ok || got != n {
-							fail(map[string]any{"what": "a Set that returned is lost (no other goroutine writes this key)", "key": key,
-								"set": n, "got": fmt.Sprint(got), "present": ok, "bulkKeys": nBulk, "writers": writers})
-							return
+						for j, want := range mine { // every key of this writer still holds its last Set (an update lost a moment ago shows here)
+							if want == 0 {
+								continue
+							}
+							key := "private/" + strconv.Itoa(w) + "/" + strconv.Itoa(j)
+							if got, ok := st.Get(key); !ok || got != want {
+								fail(map[string]any{"what": "a Set that returned is lost (no other goroutine writes this key)", "key": key,
+									"set": want, "got": fmt.Sprint(got), "present": ok, "bulkKeys": nBulk, "writers": writers})
+								return
+							}
 						}
 					}
 				}(w)
@@ -456,6 +463,16 @@ func stressStore(r *rng, thorough bool) stressResult {
 			for !stop.Load() && time.Now().Before(end) {
 				st.Merge(bulk)
 				total++
+				if it%2 == 1 {
+					// … and the store shrinks again key by key (a store that compacts / rebuilds itself when it has become sparse
+					// must not lose the writers' concurrent Sets either)
+					for k := range bulk {
+						st.Delete(k)
+						if stop.Load() {
+							break
+						}
+					}
+				}
 			}
 			stop.Store(true)
 			wg.Wait()
